@@ -517,6 +517,13 @@ def run(tier, seed, t0):
     for st_ in range(3 if tier == "quick" else 8):
         shards.append((slow, 0, base_seed, 90 + st_, 1500, None))
         shards.append((slow2, 0, base_seed, 95 + st_, 1500, None))
+    # flat-check periods that are not multiples of the progress-dot period (flatchk//20), and the loosest flatness criterion (0: every
+    # scheduled check with anything counted is flat, even with empty bins)
+    for ci, (fc, crit, nb) in enumerate(((41, 0.3, 2), (45, 0.3, 2), (64, 0.2, 2), (70, 0.2, 1), (2, 0.0, 4), (3, 0, 4), (1, 0.0, 3))):
+        pcfg = dict(name="KKKEEGGG/%dbins[0,1]/p%d/crit%r/period-or-criterion" % (nb, fc, crit), seq="KKKEEGGG", nbins=nb, binmin=0, binmax=1,
+                    flatchk=fc, flatcrit=crit, conv=math.exp(0.6))
+        for st_ in range(2):
+            shards.append((pcfg, 0, base_seed, 170 + 2 * ci + st_, 1500, None))
     # thresholds at or above the initial f = e: the run has converged before it starts and must take no step
     for ci, cv in enumerate((math.e, float(np.exp(1)), 3.0, 10.0, math.nextafter(math.e, 3.0))):
         zcfg = dict(name="KKEEGG/2bins[0,1]/p3/conv=%r/zero-steps" % cv, seq="KKEEGG", nbins=2, binmin=0, binmax=1, flatchk=3, flatcrit=0.3, conv=cv)
@@ -546,7 +553,7 @@ def run(tier, seed, t0):
         PROP, tier, seed, acc, t0,
         rule="state = one complete Wang-Landau execution = (configuration, tape of answers to every random draw). %d configurations "
              "(6-8 residue sequences, one of them with frozen residues; 1/2/4 bins over [0,1], [0,.5], [.5,1]; flat-check period 1-8; flatness .3/.5/.9; one to three "
-             "f-updates; one with f == threshold exactly, five with the threshold at or above the initial f = e: zero steps) x base tapes derived from VERIF_SEED x ALL tapes within d deviations of the "
+             "f-updates; one with f == threshold exactly, five with the threshold at or above the initial f = e: zero steps; four with flat-check periods 41/45/64/70 and three with flatness criterion 0) x base tapes derived from VERIF_SEED x ALL tapes within d deviations of the "
              "base tape (%s), horizon 400 choice points, retry bound inside a move. Menus: every value of every _randbelow (cap 12), "
              "one float inside each of the four move-selection intervals, both sides of the 0.5 coin, and for the acceptance draw "
              "{0, p(1-1e-9), p(1+1e-9), 1-1e-12} with p computed by the reference model. The reference WL machine consumes the hook's "
